@@ -223,6 +223,10 @@ def job_sim(sim, variant, timeout_ms):
             p0 = z3.Real("phi0r")
             for nm, g_ in _unitary(E, False, EPS * (2 * p0 + EPS) / 4):
                 obs.append(("epilogue(rewinder):%s" % nm, bx + [p0 >= 0, p0 * p0 == om * om], g_))
+            # the rewinder is free precession, a rotation about z: it acts on beta with the complex conjugate of the factor on alpha
+            # (so that the balanced simulation is the composition of the pulse rotation with the rewinder rotation)
+            obs.append(("epilogue(rewinder):rotation-about-z:factor-on-beta==conj(factor-on-alpha)", bx,
+                        z3.And(E[("b", "b")].re == E[("a", "a")].re, E[("b", "b")].im == -E[("a", "a")].im)))
         obs.append(("epilogue:diagonal(no-mixing)", bx, z3.And(E[("a", "b")].re == 0, E[("a", "b")].im == 0, E[("b", "a")].re == 0, E[("b", "a")].im == 0)))
         return obs
     obs, covers = path_obligations("C19/%s" % inst, results, post, instance=inst, fn_record=rec)
